@@ -228,6 +228,7 @@ def main(argv=None):
     ap.add_argument("--wall", type=float, default=None)
     ap.add_argument("--index", type=int, default=None, help="run only this generated case, verbosely")
     ap.add_argument("--no-evidence", action="store_true")
+    ap.add_argument("--dump-digests", help="write {case index: digest} as JSON (determinism self-test across interpreters)")
     ap.add_argument("--selftest", action="store_true",
                     help="determinism self-test: every case twice, digests must agree")
     args = ap.parse_args(argv)
@@ -370,6 +371,9 @@ def main(argv=None):
         "known_findings_hit": sorted(known_hit),
         "planned_cases": ncases,
     }
+    if args.dump_digests:
+        with open(args.dump_digests, "w") as f:
+            json.dump({str(t[0]): t[2].get("digest") for t in results}, f, sort_keys=True)
     if not args.no_evidence:
         write_evidence(pid, mod, args.tier, seed, t0, results, new_viol, extra)
     wall = time.monotonic() - t0
